@@ -32,7 +32,11 @@ type waBuilder struct {
 	P        *Program
 	n        *NFA
 	mode     string // Read | Skip | Write
-	cutNeg   bool
+	// assume: 0 nothing; 1 every block count is non-negative; 2 every
+	// non-zero block count is negative. Tests of a block count's sign (in
+	// any inlined frame) have the contradicting edge cut.
+	assume       int
+	countOrigins map[*ssa.Call]bool // the Varint reads that yield block counts
 	problems []string
 	// NegEdges seen (for WA-NEG) in the top frame
 	negIfs []*ssa.If
@@ -59,6 +63,70 @@ func (f *waFrame) resolve(v ssa.Value) (ssa.Value, *waFrame) {
 	return v, fr
 }
 
+// varintOrigin returns the (*ReadBuf).Varint call whose result v is, looking
+// through value-preserving conversions, phis whose other edges are constants,
+// and module helpers that hand the value back as one of their results.
+func varintOrigin(P *Program, v ssa.Value, depth int) *ssa.Call {
+	if depth > 4 {
+		return nil
+	}
+	v = stripConv(v)
+	switch x := v.(type) {
+	case *ssa.Extract:
+		call, ok := x.Tuple.(*ssa.Call)
+		if !ok {
+			return nil
+		}
+		sc := call.Call.StaticCallee()
+		if sc == nil {
+			return nil
+		}
+		if qualNameShort(sc) == "(*ReadBuf).Varint" {
+			if x.Index == 0 {
+				return call
+			}
+			return nil
+		}
+		if !P.isModuleFunc(sc) || sc.Blocks == nil || x.Index >= sc.Signature.Results().Len() {
+			return nil
+		}
+		var org *ssa.Call
+		for _, b := range sc.Blocks {
+			if b == sc.Recover {
+				continue
+			}
+			ret, ok := b.Instrs[len(b.Instrs)-1].(*ssa.Return)
+			if !ok {
+				continue
+			}
+			r := resolvedResults(ret)[x.Index]
+			if _, isC := stripConv(r).(*ssa.Const); isC {
+				continue
+			}
+			o := varintOrigin(P, r, depth+1)
+			if o == nil || org != nil && o != org {
+				return nil
+			}
+			org = o
+		}
+		return org
+	case *ssa.Phi:
+		var org *ssa.Call
+		for _, e := range x.Edges {
+			if _, isC := stripConv(e).(*ssa.Const); isC {
+				continue
+			}
+			o := varintOrigin(P, e, depth+1)
+			if o == nil || org != nil && o != org {
+				return nil
+			}
+			org = o
+		}
+		return org
+	}
+	return nil
+}
+
 func isVarintResult(v ssa.Value) bool {
 	ex, ok := v.(*ssa.Extract)
 	if !ok || ex.Index != 0 {
@@ -77,7 +145,10 @@ func (w *waBuilder) lengthToken(fr *waFrame, n ssa.Value) string {
 	if k, ok := (Folder{w.P}).FoldInt(v); ok {
 		return fmt.Sprintf("B%d", k)
 	}
-	if isVarintResult(v) {
+	if o := varintOrigin(w.P, v, 0); o != nil {
+		if w.countOrigins[o] {
+			return "Lcount" // a byte length taken from a block's item count
+		}
 		return "L"
 	}
 	// possibly negated / phi of a varint result: still "that varint's value" only if it is the value itself
@@ -307,9 +378,59 @@ func (w *waBuilder) evalWith(v ssa.Value, env map[string]int64, d int) (int64, b
 	return 0, false
 }
 
-// build adds fn's automaton starting at state `from`; returns the states at
-// which fn returns successfully.
-func (w *waBuilder) build(fr *waFrame, from int) []int {
+// What is assumed about the block count read last (only under a sign
+// assumption, see waBuilder.assume).
+const (
+	ctxUnknown = iota
+	ctxZero
+	ctxNeg
+	ctxPos
+)
+
+type waExit struct {
+	state int
+	ctx   int
+}
+
+// ctxSplit: the cases a freshly read block count is split into.
+func (w *waBuilder) ctxSplit() []int {
+	switch w.assume {
+	case 1:
+		return []int{ctxZero, ctxPos}
+	case 2:
+		return []int{ctxZero, ctxNeg}
+	}
+	return []int{ctxUnknown}
+}
+
+// ctxDecides evaluates `count op 0` under what is assumed about the count.
+func ctxDecides(ctx int, op token.Token) (truth, known bool) {
+	sign := map[int]int{ctxZero: 0, ctxNeg: -1, ctxPos: 1}
+	sg, ok := sign[ctx]
+	if !ok {
+		return false, false
+	}
+	switch op {
+	case token.EQL:
+		return sg == 0, true
+	case token.NEQ:
+		return sg != 0, true
+	case token.LSS:
+		return sg < 0, true
+	case token.LEQ:
+		return sg <= 0, true
+	case token.GTR:
+		return sg > 0, true
+	case token.GEQ:
+		return sg >= 0, true
+	}
+	return false, false
+}
+
+// build adds fn's automaton starting at state `from`, entered with what is
+// assumed about the current block count; returns the states at which fn
+// returns successfully, each with the assumption then in force.
+func (w *waBuilder) build(fr *waFrame, from int, ctx0 int) []waExit {
 	fn := fr.fn
 	if fn == nil || fn.Blocks == nil {
 		w.problems = append(w.problems, "no body for "+fnKey(fn))
@@ -319,15 +440,20 @@ func (w *waBuilder) build(fr *waFrame, from int) []int {
 		w.problems = append(w.problems, "inlining bound exceeded at "+fnKey(fn))
 		return nil
 	}
-	entry := map[*ssa.BasicBlock]int{}
-	var exits []int
-	var visit func(b *ssa.BasicBlock) int
-	visit = func(b *ssa.BasicBlock) int {
-		if s, ok := entry[b]; ok {
+	type vkey struct {
+		b   *ssa.BasicBlock
+		idx int
+		ctx int
+	}
+	entry := map[vkey]int{}
+	var exits []waExit
+	var visit func(b *ssa.BasicBlock, idx int, ctx int) int
+	visit = func(b *ssa.BasicBlock, idx int, ctx int) int {
+		if s, ok := entry[vkey{b, idx, ctx}]; ok {
 			return s
 		}
 		s := w.n.newState()
-		entry[b] = s
+		entry[vkey{b, idx, ctx}] = s
 		cur := []int{s}
 		emit := func(label string) {
 			ns := w.n.newState()
@@ -336,7 +462,8 @@ func (w *waBuilder) build(fr *waFrame, from int) []int {
 			}
 			cur = []int{ns}
 		}
-		for _, in := range b.Instrs {
+		for i := idx; i < len(b.Instrs); i++ {
+			in := b.Instrs[i]
 			ci, ok := in.(ssa.CallInstruction)
 			if !ok {
 				continue
@@ -386,6 +513,16 @@ func (w *waBuilder) build(fr *waFrame, from int) []int {
 			switch q {
 			case "(*ReadBuf).Varint":
 				emit("V")
+				if call, isCall := in.(*ssa.Call); isCall && w.assume != 0 && w.countOrigins[call] {
+					// a new block count: split into the cases the assumption allows
+					for _, nc := range w.ctxSplit() {
+						t := visit(b, i+1, nc)
+						for _, c := range cur {
+							w.n.add(c, "", t)
+						}
+					}
+					return s
+				}
 				continue
 			case "(*ReadBuf).ReadByte":
 				emit("B1")
@@ -454,46 +591,72 @@ func (w *waBuilder) build(fr *waFrame, from int) []int {
 					}
 				}
 			}
-			var outs []int
+			var outs []waExit
 			for _, c := range cur {
-				outs = append(outs, w.build(sub, c)...)
+				outs = append(outs, w.build(sub, c, ctx)...)
 			}
-			ns := w.n.newState()
+			byCtx := map[int][]int{}
 			for _, o := range outs {
-				w.n.add(o, "", ns)
+				byCtx[o.ctx] = append(byCtx[o.ctx], o.state)
 			}
-			cur = []int{ns}
+			if _, same := byCtx[ctx]; len(byCtx) == 0 || len(byCtx) == 1 && same {
+				ns := w.n.newState()
+				for _, o := range outs {
+					w.n.add(o.state, "", ns)
+				}
+				cur = []int{ns}
+				continue
+			}
+			// the callee read a block count: carry on separately per case
+			for nc := ctxUnknown; nc <= ctxPos; nc++ {
+				sts, has := byCtx[nc]
+				if !has {
+					continue
+				}
+				t := visit(b, i+1, nc)
+				for _, o := range sts {
+					w.n.add(o, "", t)
+				}
+			}
+			return s
 		}
 		last := b.Instrs[len(b.Instrs)-1]
 		switch x := last.(type) {
 		case *ssa.Return:
 			if w.returnAccepting(x) {
-				exits = append(exits, cur...)
+				for _, c := range cur {
+					exits = append(exits, waExit{c, ctx})
+				}
 			}
 		case *ssa.Panic:
 		case *ssa.If:
-			negTrue := false
-			if cmp, ok := asCmp(x.Cond, true); ok && cmp.Op == token.LSS {
+			cut := -1 // successor index not taken under the sign assumption
+			if cmp, ok := asCmp(x.Cond, true); ok {
 				if k, isK := constInt(cmp.Y); isK && k == 0 {
 					v, _ := fr.resolve(cmp.X)
-					if isVarintResult(v) && inBlockLoop(x, v) {
-						negTrue = true
-						w.negIfs = append(w.negIfs, x)
+					if o := varintOrigin(w.P, v, 0); o != nil && w.countOrigins[o] {
+						if truth, known := ctxDecides(ctx, cmp.Op); known {
+							if truth {
+								cut = 1
+							} else {
+								cut = 0
+							}
+						}
 					}
 				}
 			}
 			for i, s := range b.Succs {
-				if w.cutNeg && negTrue && i == 0 {
+				if i == cut {
 					continue
 				}
-				t := visit(s)
+				t := visit(s, 0, ctx)
 				for _, c := range cur {
 					w.n.add(c, "", t)
 				}
 			}
 		default:
 			for _, s := range b.Succs {
-				t := visit(s)
+				t := visit(s, 0, ctx)
 				for _, c := range cur {
 					w.n.add(c, "", t)
 				}
@@ -501,7 +664,7 @@ func (w *waBuilder) build(fr *waFrame, from int) []int {
 		}
 		return s
 	}
-	s0 := visit(fn.Blocks[0])
+	s0 := visit(fn.Blocks[0], 0, ctx0)
 	w.n.add(from, "", s0)
 	return exits
 }
@@ -552,13 +715,42 @@ func (w *waBuilder) writeToken(fr *waFrame, bs ssa.Value) string {
 	return "?bytes(" + strings.ReplaceAll(v.String(), " ", "") + ")"
 }
 
-// methodAutomaton builds the automaton of one codec method.
-func methodAutomaton(P *Program, fn *ssa.Function, mode string, cutNeg bool) (*NFA, []string, []*ssa.If) {
-	w := &waBuilder{P: P, n: newNFA(), mode: mode, cutNeg: cutNeg, small: map[string]bool{}}
+// blockCountOrigins finds the Varint reads whose value is tested for sign
+// inside the loop that reads it: the block counts of arrays and maps. It
+// also returns those tests.
+func blockCountOrigins(P *Program, fn *ssa.Function) (map[*ssa.Call]bool, []*ssa.If) {
+	out := map[*ssa.Call]bool{}
+	var ifs []*ssa.If
+	for _, b := range fn.Blocks {
+		iff, ok := b.Instrs[len(b.Instrs)-1].(*ssa.If)
+		if !ok {
+			continue
+		}
+		cmp, ok := asCmp(iff.Cond, true)
+		if !ok || cmp.Op != token.LSS && cmp.Op != token.GEQ {
+			continue
+		}
+		if k, isK := constInt(cmp.Y); !isK || k != 0 {
+			continue
+		}
+		v := stripConv(cmp.X)
+		if o := varintOrigin(P, v, 0); o != nil && inBlockLoop(iff, v) {
+			out[o] = true
+			ifs = append(ifs, iff)
+		}
+	}
+	return out, ifs
+}
+
+// methodAutomaton builds the automaton of one codec method under a sign
+// assumption for block counts (see waBuilder.assume).
+func methodAutomaton(P *Program, fn *ssa.Function, mode string, assume int) (*NFA, []string, []*ssa.If) {
+	w := &waBuilder{P: P, n: newNFA(), mode: mode, assume: assume, small: map[string]bool{}}
+	w.countOrigins, w.negIfs = blockCountOrigins(P, fn)
 	fr := &waFrame{fn: fn, recvConst: map[string]int64{}}
-	exits := w.build(fr, w.n.start)
+	exits := w.build(fr, w.n.start, ctxUnknown)
 	for _, e := range exits {
-		w.n.accept[e] = true
+		w.n.accept[e.state] = true
 	}
 	for l := range w.n.alphabet() {
 		if strings.HasPrefix(l, "?") {
